@@ -286,6 +286,15 @@ func newRun(scn *scenario, seed int64) *run {
 
 // payload renders one frame's payload bytes for the given codec/compression.
 func (rn *run) payload(f frameSpec, codec, comp string) []byte {
+	return rn.payloadAs(f, codec, comp, nil)
+}
+
+// respPayload encodes a response message as the method's response type.
+func (rn *run) respPayload(f frameSpec, codec, comp string) []byte {
+	return rn.payloadAs(f, codec, comp, rn.respDesc)
+}
+
+func (rn *run) payloadAs(f frameSpec, codec, comp string, as protoreflect.MessageDescriptor) []byte {
 	var data []byte
 	if codec == "unknown" || codec == "" {
 		codec = "proto"
@@ -300,7 +309,11 @@ func (rn *run) payload(f frameSpec, codec, comp string) []byte {
 			data = []byte{0x0a, 0xff, 0xff, 0xff, 0xff, 0x0f, 0x01} // length-delimited field running past the end
 		}
 	} else {
-		data = encodeMsg(codec, rn.msg(f.M))
+		m := rn.msg(f.M)
+		if as != nil && as.FullName() == "verif.v1.Reply" {
+			m = convertMsg(m, as)
+		}
+		data = encodeMsg(codec, m)
 	}
 	if f.Z && f.Fault != "rawflagged" {
 		c := comp
@@ -1127,6 +1140,7 @@ func (rn *run) respond(w http.ResponseWriter, form, codec string, herr int) {
 		}
 	}
 	statusPB := &status.Status{Code: int32(code), Message: emsg, Details: edet}
+	zeroPB := &status.Status{Code: 0, Message: "boom"}
 
 	var body []byte
 	status := http.StatusOK
@@ -1152,6 +1166,12 @@ func (rn *run) respond(w http.ResponseWriter, form, codec string, herr int) {
 		}
 		endHdr := http.Header{}
 		endHdr.Set("Grpc-Status", strconv.Itoa(code))
+		if hd.Fault == "detailscode0" {
+			// hostile: a non-zero grpc-status whose details-bin carries a google.rpc.Status with code 0
+			endHdr.Set("Grpc-Status", "2")
+			bin, _ := proto.Marshal(zeroPB)
+			endHdr.Set("Grpc-Status-Details-Bin", base64.RawStdEncoding.EncodeToString(bin))
+		}
 		if code != 0 {
 			endHdr.Set("Grpc-Message", grpcPercentEncode(emsg))
 			if len(edet) > 0 {
@@ -1216,6 +1236,10 @@ func (rn *run) respond(w http.ResponseWriter, form, codec string, herr int) {
 			if code != 0 {
 				es["error"] = connectErrObj(code, emsg, edet)
 			}
+			if hd.Fault == "errcode0" {
+				// hostile: an error object without a code
+				es["error"] = map[string]any{"message": "boom"}
+			}
 			if len(trailers) > 0 {
 				es["metadata"] = trailers
 			}
@@ -1226,7 +1250,12 @@ func (rn *run) respond(w http.ResponseWriter, form, codec string, herr int) {
 			body = append(body, envelope(0x02, js)...)
 		}
 	case "connect_post", "connect_get":
-		if code != 0 {
+		if hd.Fault == "errcode0" {
+			// hostile: a failure status whose JSON body names no error code
+			status = http.StatusNotFound
+			h.Set("Content-Type", "application/json")
+			body = []byte(`{"message":"boom"}`)
+		} else if code != 0 {
 			status = connectHTTPStatus(code)
 			h.Set("Content-Type", "application/json")
 			js, _ := json.Marshal(connectErrObj(code, emsg, edet))
@@ -1234,6 +1263,11 @@ func (rn *run) respond(w http.ResponseWriter, form, codec string, herr int) {
 				js = []byte(`{"code": [`)
 			}
 			body = js
+			if comp != "" && comp != "unknown" {
+				// the Connect protocol lets a unary error body be compressed like any other body
+				h.Set("Content-Encoding", comp)
+				body = compressAs(comp, js)
+			}
 		} else {
 			ctFor("application/" + codec)
 			if comp != "" {
@@ -1242,14 +1276,18 @@ func (rn *run) respond(w http.ResponseWriter, form, codec string, herr int) {
 			if len(frames) > 0 {
 				f := frames[0]
 				f.Z = comp != "" && f.Fault != "rawflagged"
-				body = rn.payload(f, codec, comp)
+				body = rn.respPayload(f, codec, comp)
 			}
 		}
 		for k, v := range trailers {
 			h["Trailer-"+k] = v
 		}
 	case "rest":
-		if code != 0 {
+		if hd.Fault == "errcode0" {
+			status = http.StatusNotFound
+			h.Set("Content-Type", "application/json")
+			body = []byte(`{"message":"boom"}`)
+		} else if code != 0 {
 			status = connectHTTPStatus(code)
 			h.Set("Content-Type", "application/json")
 			js, _ := protojson.Marshal(statusPB)
@@ -1257,6 +1295,10 @@ func (rn *run) respond(w http.ResponseWriter, form, codec string, herr int) {
 				js = []byte(`{"code": [`)
 			}
 			body = js
+			if comp != "" && comp != "unknown" {
+				h.Set("Content-Encoding", comp)
+				body = compressAs(comp, js)
+			}
 		} else {
 			ctFor("application/json")
 			if comp != "" {
@@ -1265,7 +1307,7 @@ func (rn *run) respond(w http.ResponseWriter, form, codec string, herr int) {
 			if len(frames) > 0 {
 				f := frames[0]
 				f.Z = comp != "" && f.Fault != "rawflagged"
-				body = rn.payload(f, "json", comp)
+				body = rn.respPayload(f, "json", comp)
 			}
 		}
 		if len(trailers) > 0 {
@@ -1352,7 +1394,7 @@ func (rn *run) respond(w http.ResponseWriter, form, codec string, herr int) {
 func (rn *run) respFrame(f frameSpec, codec, comp string, base byte) []byte {
 	ff := f
 	ff.Z = f.Z && comp != ""
-	p := rn.payload(ff, codec, comp)
+	p := rn.respPayload(ff, codec, comp)
 	flags := base
 	if ff.Z {
 		flags |= 1
